@@ -14,7 +14,7 @@ import sys
 from zope.interface import Interface, implementedBy
 from zope.interface.interface import InterfaceClass
 
-NAMES = ['', 'a', 'ab', 'b', '\xe9', 'A']
+NAMES = ['', 'a', 'ab', 'b', '\xe9', 'A', '\xe8', 'a\u4e2d', 'a\u4e2e']      # non-ASCII names that differ in their last UTF-8 byte only
 MODS = ['', 'm', 'ma', 'n']
 OPS = {'lt': operator.lt, 'le': operator.le, 'gt': operator.gt, 'ge': operator.ge}
 
